@@ -810,3 +810,158 @@ Proof.
   - apply wf_map; auto.
   - rewrite E2. rewrite esc_pieces_eq. eexists. reflexivity.
 Qed.
+
+(* ====================================================================== _get_expression: the three rewrites *)
+Definition special (c : N) : bool := (c =? 38) || (c =? 124) || (c =? 33) || (c =? 35).
+
+Lemma special_cases : forall c, special c = true -> c = 38 \/ c = 124 \/ c = 33 \/ c = 35.
+Proof.
+  intros c H. unfold special in H. repeat (apply orb_true_iff in H; destruct H as [H|H]);
+    apply N.eqb_eq in H; auto.
+Qed.
+
+Lemma word_not_special : forall c, is_word c = true -> special c = false.
+Proof.
+  intros c H. destruct (special c) eqn:E; auto.
+  apply special_cases in E. destruct E as [-> | [-> | [-> | ->]]]; discriminate.
+Qed.
+
+Lemma lit_not_special : forall c, lit_char c = true -> special c = false.
+Proof.
+  intros c H. destruct (special c) eqn:E; auto.
+  apply special_cases in E. destruct E as [-> | [-> | [-> | ->]]]; discriminate.
+Qed.
+
+Definition plain (s : str) : bool := forallb (fun c => negb (special c)) s.
+
+Lemma plain_app : forall a b, plain (a ++ b) = plain a && plain b.
+Proof. intros. apply forallb_app. Qed.
+
+Lemma plain_words : forall s, forallb is_word s = true -> plain s = true.
+Proof.
+  induction s as [|c s IH]; simpl; auto. intro H. apply andb_true_iff in H. destruct H as [Hc Hs].
+  rewrite word_not_special; auto.
+Qed.
+
+Lemma plain_good : forall s, good_name s = true -> plain s = true.
+Proof. intros s H. destruct (good_name_facts _ H) as (_ & Hw & _). apply plain_words; auto. Qed.
+
+Lemma plain_dots : forall attrs, forallb good_name attrs = true -> plain (dots attrs) = true.
+Proof.
+  induction attrs as [|a r IH]; simpl; auto. intro H. apply andb_true_iff in H. destruct H as [Ha Hr].
+  change (plain (a ++ dots r) = true). rewrite plain_app, plain_good, IH; auto.
+Qed.
+
+Lemma plain_lits : forall s, forallb lit_char s = true -> plain s = true.
+Proof.
+  induction s as [|c s IH]; simpl; auto. intro H. apply andb_true_iff in H. destruct H as [Hc Hs].
+  rewrite lit_not_special; auto.
+Qed.
+
+Definition op_tok (t : tok) : bool :=
+  match t with TAnd | TOr | TNot | TCmp CNe => true | _ => false end.
+
+(* every token text other than && || ! != is free of & | ! # *)
+Lemma text_plain : forall rs ps t, forallb is_digit rs = true -> forallb is_digit ps = true ->
+  wf_tok rs ps t = true -> op_tok t = false -> plain (text t) = true.
+Proof.
+  intros rs ps t Hrs Hps H Hop. destruct t; cbn [text]; try reflexivity; try discriminate.
+  - destruct c; try reflexivity; discriminate.
+  - simpl in H. apply andb_true_iff in H. destruct H as [H Hat]. apply andb_true_iff in H.
+    destruct H as [Hs Hf]. apply str_eqb_eq in Hs. subst.
+    change (plain ((114 :: rs) ++ [46] ++ f ++ dots attrs) = true).
+    rewrite !plain_app. rewrite plain_good, plain_dots by auto.
+    rewrite (plain_words (114 :: rs)) by (simpl; apply digits_are_words; auto). reflexivity.
+  - simpl in H. apply andb_true_iff in H. destruct H as [Hs Hf]. apply str_eqb_eq in Hs. subst.
+    change (plain ((112 :: ps) ++ [46] ++ f) = true).
+    rewrite !plain_app. rewrite plain_good by auto.
+    rewrite (plain_words (112 :: ps)) by (simpl; apply digits_are_words; auto). reflexivity.
+  - simpl in H. apply andb_true_iff in H. destruct H as [Hs Hf]. apply str_eqb_eq in Hs. subst.
+    change (plain (s_eval_lp ++ (112 :: ps) ++ [46] ++ f ++ [41]) = true).
+    rewrite !plain_app. rewrite plain_good by auto.
+    rewrite (plain_words (112 :: ps)) by (simpl; apply digits_are_words; auto). reflexivity.
+  - simpl in H. unfold lit_ok in H. apply andb_true_iff in H. destruct H as [H _].
+    apply andb_true_iff in H. destruct H as [H _].
+    change (plain ([quote_of dq] ++ s ++ [quote_of dq]) = true).
+    rewrite !plain_app. rewrite plain_lits by auto. destruct dq; reflexivity.
+  - simpl in H. unfold digits_ok in H. apply andb_true_iff in H. destruct H as [H _].
+    apply andb_true_iff in H. destruct H as [_ H]. apply plain_words. apply digits_are_words; auto.
+  - apply plain_good; auto.
+  - simpl in H. apply andb_true_iff in H. destruct H as [Hx Hat].
+    rewrite plain_app, plain_good, plain_dots; auto.
+  - simpl in H. change (plain (s_eval_lp ++ x ++ [41]) = true).
+    rewrite !plain_app, plain_good; auto.
+Qed.
+
+Lemma plain_blanks : forall a, forallb is_blank a = true -> plain a = true.
+Proof.
+  induction a as [|c a IH]; simpl; auto. intro H. apply andb_true_iff in H. destruct H as [Hc Ha].
+  rewrite IH by auto. unfold is_blank in Hc. apply orb_true_iff in Hc.
+  destruct Hc as [E|E]; apply N.eqb_eq in E; subst; reflexivity.
+Qed.
+
+Lemma plain_no : forall x s, special x = true -> plain s = true ->
+  forallb (fun c => negb (c =? x)) s = true.
+Proof.
+  intros x s Hx. induction s as [|c s IH]; simpl; auto. intro H.
+  apply andb_true_iff in H. destruct H as [Hc Hs]. rewrite IH by auto.
+  destruct (c =? x) eqn:E; auto. apply N.eqb_eq in E. subst c. rewrite Hx in Hc. discriminate.
+Qed.
+
+(* ---- && and || *)
+Lemma m_op_other : forall x rep prev c s, (c =? x) = false -> m_op x rep prev (c :: s) = None.
+Proof. intros. unfold m_op. destruct s; auto. rewrite H. reflexivity. Qed.
+
+Lemma rsub_op_copy : forall x rep a rest prev, forallb (fun c => negb (c =? x)) a = true ->
+  rsub (m_op x rep) prev 0 (a ++ rest) = a ++ rsub (m_op x rep) (lastc a prev) 0 rest.
+Proof.
+  intros. apply (rsub_copy (m_op x rep) (fun c => c =? x)); auto.
+  intros. apply m_op_other; auto.
+Qed.
+
+Lemma rsub_op_hit : forall x rep rest prev,
+  rsub (m_op x rep) prev 0 (x :: x :: rest) = rep ++ rsub (m_op x rep) (Some x) 0 rest.
+Proof. intros. cbn [rsub]. unfold m_op at 1. rewrite N.eqb_refl. reflexivity. Qed.
+
+Definition pad_piece (sel : tok -> bool) (kw : tok) (p : piece) : piece :=
+  match p with (a, t, b) => if sel t then (a ++ [32], kw, 32 :: b) else p end.
+
+Definition sel_and (t : tok) : bool := match t with TAnd => true | _ => false end.
+Definition sel_or (t : tok) : bool := match t with TOr => true | _ => false end.
+Definition sel_not (t : tok) : bool := match t with TNot => true | _ => false end.
+
+(* tokens that may occur once escaping is done *)
+Definition post_esc (t : tok) : bool :=
+  match t with TReq _ _ _ | TPol _ _ | TEval _ _ | TDot => false | _ => true end.
+
+Lemma op_render : forall x rep sel kw rs ps,
+  special x = true -> text kw <> [] ->
+  forallb is_digit rs = true -> forallb is_digit ps = true ->
+  (forall t, sel t = true -> text t = [x; x]) ->
+  (forall t, sel t = false -> op_tok t = true -> forallb (fun c => negb (c =? x)) (text t) = true) ->
+  rep = 32 :: text kw ++ [32] ->
+  forall pcs prev rest, adm pcs = true -> forallb (wf_tok rs ps) (toks pcs) = true ->
+  rsub (m_op x rep) prev 0 (render_pieces pcs ++ rest)
+  = render_pieces (map (pad_piece sel kw) pcs)
+    ++ rsub (m_op x rep) (lastc (render_pieces pcs) prev) 0 rest.
+Proof.
+  intros x rep sel kw rs ps Hx Hkw Hrs Hps Hsel Hops Hrep.
+  induction pcs as [|[[a t] b] pcs IH]; intros prev rest Hadm Hwf.
+  - reflexivity.
+  - cbn [toks map tok_of fst snd forallb] in Hwf. apply andb_true_iff in Hwf. destruct Hwf as [Hwt Hwf].
+    destruct (adm_cons _ _ _ _ Hadm) as (Ha & Hb & Hr & Hgap).
+    cbn [map pad_piece]. rewrite render_cons. rewrite <- !app_assoc.
+    rewrite rsub_op_copy by (apply plain_no; auto; apply plain_blanks; auto).
+    destruct (sel t) eqn:Hs.
+    + rewrite (Hsel t Hs). cbn [app]. rewrite rsub_op_hit.
+      rewrite rsub_op_copy by (apply plain_no; auto; apply plain_blanks; auto).
+      rewrite IH by auto. rewrite render_cons. subst rep.
+      norm_lastc. rewrite (Hsel t Hs). norm_lastc.
+      rewrite <- ?app_assoc. cbn [app]. rewrite <- ?app_assoc. reflexivity.
+    + rewrite (rsub_op_copy x rep (text t)).
+      2:{ destruct (op_tok t) eqn:Hop; [apply Hops; auto|].
+          apply plain_no; auto. apply (text_plain rs ps); auto. }
+      rewrite rsub_op_copy by (apply plain_no; auto; apply plain_blanks; auto).
+      rewrite IH by auto. rewrite render_cons. norm_lastc.
+      rewrite <- ?app_assoc. reflexivity.
+Qed.
